@@ -136,7 +136,7 @@ Definition tinv (t : tr) (pend : list rep) : Prop :=
             dcur t ++ pend = firstn (length (dcur t) + length pend) (em t)
   | Decided => pre_ok t /\
                (mark t = StopMark \/
-                (mark t = PauseMark /\ seen t = length (log t) /\ proc t <> Running) \/
+                (mark t = PauseMark /\ proc t <> Running) \/
                 (mark t = NoMark /\ seen t = length (log t) /\ proc t = ExitOk))
   | DoneOk => mark t = NoMark /\ proc t = ExitOk /\ seen t = length (log t) /\ dcur t = cur t
   | DoneFail => mark t = NoMark /\ proc t = ExitFail /\ seen t = length (log t) /\ pre_ok t
@@ -170,7 +170,7 @@ Proof.
       rewrite firstn_app_le; auto. rewrite skipn_length. lia.
     + destruct Hf as ((Hl & Hd) & Hm). split.
       * split; [rewrite ?app_length; lia|]. rewrite firstn_app_le; auto.
-      * destruct Hm as [Hm|[(Hm & _ & Hn)|(Hm & _ & Hn)]]; [left; auto | congruence | congruence].
+      * destruct Hm as [Hm|[(Hm & Hn)|(Hm & _ & Hn)]]; [left; auto | congruence | congruence].
     + destruct Hf as (_ & Hn & _). congruence.
     + destruct Hf as (_ & Hn & _). congruence.
 Qed.
@@ -206,14 +206,14 @@ Qed.
 
 (* resume_trial of a trial whose cached status is paused *)
 Lemma tinv_resume t reps :
-  tinv t [] -> cstat t = Paused -> StronglySorted rle reps -> tinv (t_resume reps t) [].
+  tinv t [] -> cstat t = Paused -> StronglySorted rle reps -> tinv (t_resume Generic reps t) [].
 Proof.
   unfold tinv. intros (Hb & Hs & Hc & Hso & Hcs & Hpt & Hpa & Hf) Hp Hr.
   specialize (Hcs Hp).
-  assert (Hfin : fin t = Decided /\ pre_ok t /\ seen t = length (log t)).
+  assert (Hfin : fin t = Decided /\ pre_ok t).
   { destruct (fin t); try (destruct Hf as (Hm & _); congruence).
-    destruct Hf as (Hpre & [Hm|[(Hm & Hse & _)|(Hm & _)]]); try congruence. auto. }
-  destruct Hfin as (Hfd & Hpre & Hse).
+    destruct Hf as (Hpre & _). auto. }
+  destruct Hfin as (Hfd & Hpre).
   unfold t_resume, em; simpl. rewrite Hcs. rewrite skipn_all. simpl.
   repeat split; auto; try congruence; try lia.
   apply Forall_app; split; auto. constructor; [|constructor].
@@ -269,17 +269,21 @@ Proof.
   - rewrite firstn_app_le; auto.
 Qed.
 
-(* PAUSE with no report in the window: pause_trial *)
-Lemma tinv_pause0 t p p' :
-  tinv t p -> fin t = Live -> seen t = length (log t) ->
-  tinv (set_fin Decided (t_pause Generic 0 t)) p'.
+(* PAUSE: pause_trial; the worker may still write [late] reports *)
+Lemma tinv_pause t p p' late :
+  tinv t p -> fin t = Live -> tinv (set_fin Decided (t_pause Generic late t)) p'.
 Proof.
-  intros H Hl Hsn. pose proof (live_pre_ok _ _ H Hl) as Hpre. revert H Hpre Hsn.
-  unfold t_pause, t_kill, t_write, set_fin, set_mark, set_cstat, tinv, pre_ok, em.
+  intros H Hl. pose proof (live_pre_ok _ _ H Hl) as Hpre. revert H Hpre.
+  unfold t_pause, drop_window, t_kill, t_write, set_fin, set_mark, set_cstat, tinv, pre_ok, em.
   destruct t as [lg td pr mk sn cs nr cu dc bs fn pa]; simpl in *. subst fn.
-  intros (Hb & Hs & Hc & Hso & Hcs & Hpt & Hpa & (Hm & Hse & Hd)) (Hpl & Hpd) Hsn. subst mk.
-  destruct pr; simpl; rewrite ?app_nil_r; repeat split; auto; try congruence; try lia.
-  all: right; left; repeat split; auto; congruence.
+  intros (Hb & Hs & Hc & Hso & Hcs & Hpt & Hpa & (Hm & Hse & Hd)) (Hpl & Hpd). subst mk.
+  destruct pr; simpl; repeat split; auto; try congruence; try lia.
+  all: try (rewrite ?app_length; lia).
+  all: try (rewrite skipn_app_le by lia).
+  all: try (rewrite ?app_length; lia).
+  all: try (right; left; split; [reflexivity|discriminate]).
+  - rewrite Hc. rewrite <- app_assoc. f_equal. symmetry. apply firstn_skipn.
+  - rewrite firstn_app_le; auto.
 Qed.
 
 (* STOP on a trial the poll showed as completed: nothing is sent to the backend *)
@@ -424,9 +428,6 @@ Proof.
   split; [exact H1|]. split; [exact H2|]. split; [exact H3|exact H4].
 Qed.
 
-Definition quiet_decs (decs : list (dec * nat)) : Prop :=
-  Forall (fun d => fst d = PAUSE -> snd d = 0) decs.
-
 Lemma mem_nat_In x l : mem_nat x l = true <-> In x l.
 Proof.
   induction l as [|y l IH]; simpl; [split; [discriminate|tauto]|].
@@ -475,15 +476,15 @@ Lemma status_eqb_eq a b : status_eqb a b = true <-> a = b.
 Proof. destruct a, b; simpl; split; intros H; try reflexivity; try discriminate. Qed.
 
 Lemma update_loop_LI batch : forall decs done ids ts out ts' out' done',
-  LI batch done ids ts -> quiet_decs decs ->
+  LI batch done ids ts ->
   update_loop Generic batch decs done ts out = (ts', out', done') ->
   LI [] done' ids ts'.
 Proof.
-  induction batch as [|[i r] rest IH]; intros decs done ids ts out ts' out' done' H Hq F; simpl in F.
+  induction batch as [|[i r] rest IH]; intros decs done ids ts out ts' out' done' H F; simpl in F.
   - inversion F; subst. exact H.
   - destruct (mem_nat i done) eqn:Em.
     + (* the trial is in done_trials: the result is skipped *)
-      apply mem_nat_In in Em. eapply IH; [|exact Hq|exact F].
+      apply mem_nat_In in Em. eapply IH; [|exact F].
       intros j t Hj. destruct (H j t Hj) as (H1 & H2 & H3 & H4).
       destruct (Nat.eq_dec i j) as [<-|N].
       * specialize (H2 Em). split; [eapply tinv_pend_irrel; eauto|]. split; [auto|]. split.
@@ -492,13 +493,10 @@ Proof.
       * rewrite pend_of_cons_other in * by auto.
         split; [exact H1|]. split; [exact H2|]. split; [exact H3|exact H4].
     + assert (Hnd : ~ In i done) by (intros Hin; apply mem_nat_In in Hin; congruence).
-      assert (Hq' : quiet_decs (snd (next_dec decs)) /\ (fst (fst (next_dec decs)) = PAUSE -> snd (fst (next_dec decs)) = 0)).
-      { destruct decs as [|[d l] ds]; simpl; [split; [constructor|discriminate]|].
-        inversion Hq; subst. split; auto. }
-      destruct (next_dec decs) as [[d late] decs'] eqn:En. simpl in Hq'. destruct Hq' as (Hq1 & Hq2).
+      destruct (next_dec decs) as [[d late] decs'] eqn:En.
       destruct d.
       * (* CONTINUE *)
-        eapply IH; [|exact Hq1|exact F].
+        eapply IH; [|exact F].
         intros j t' Hj. apply nth_upd_inv in Hj. destruct Hj as [[N Hj]|[Eij [t [Hj Et]]]]; [|subst j t'].
         -- destruct (H j t' Hj) as (H1 & H2 & H3 & H4). rewrite pend_of_cons_other in * by auto.
            split; [exact H1|]. split; [exact H2|]. split; [exact H3|exact H4].
@@ -510,13 +508,12 @@ Proof.
            ++ intros Hn. simpl in Hn. congruence.
            ++ intros _ _. exact Hs.
       * (* PAUSE *)
-        rewrite (Hq2 eq_refl) in F.
-        eapply IH; [|exact Hq1|exact F].
+        eapply IH; [|exact F].
         apply LI_decide; auto.
         intros t Hj Hl Hs Hd. split; [simpl; discriminate|].
-        intros p. eapply tinv_pause0; eauto.
+        intros p. eapply tinv_pause; eauto.
       * (* STOP *)
-        eapply IH; [|exact Hq1|exact F].
+        eapply IH; [|exact F].
         destruct (status_eqb (status_at ts i) Completed) eqn:Es.
         -- apply LI_decide; auto.
            intros t Hj Hl Hs Hd. split; [simpl; discriminate|].
@@ -562,7 +559,6 @@ Definition good_ev (e : ev) : Prop :=
   match e with
   | Start reps => StronglySorted rle reps          (* worker time stamps of a run do not decrease *)
   | Resume _ reps => StronglySorted rle reps
-  | Poll _ decs => quiet_decs decs                  (* no report in the window of a PAUSE *)
   | _ => True
   end.
 
@@ -596,7 +592,7 @@ Proof.
     inversion F; subst; simpl. clear F.
     pose proof (fetch_generic_LI ids _ [] [] _ _ (SI_LI _ H) Ef) as L1. simpl in L1.
     apply LI_sort in L1.
-    pose proof (update_loop_LI _ _ _ _ _ _ _ _ _ L1 Hg Eu) as L2.
+    pose proof (update_loop_LI _ _ _ _ _ _ _ _ _ L1 Eu) as L2.
     apply (observe_PI ids ids); [|apply incl_refl].
     intros j t Hj. destruct (L2 j t Hj) as (H1 & H2 & H3 & H4). split; [exact H1|].
     intros Hin Hl. apply H4; auto.
@@ -663,13 +659,13 @@ Definition late_evs : list ev :=
 
 Ltac ss := repeat (constructor; try (unfold rle, rts; simpl; discriminate)).
 
-Lemma late_report_witness :
+Lemma late_report_dropped :
   exists evs st t,
     Forall (fun e => tuner_ev e = true) evs /\
     Forall (fun e => match e with Start reps | Resume _ reps => StronglySorted rle reps | _ => True end) evs /\
     run Generic init evs = (st, None) /\ nth_error (trials st) 0%nat = Some t /\
     runs_of t = [ ([(1, 0%Z); (2, 1%Z)], [(1, 0%Z)], Decided);
-                  ([(3, 100%Z)], [(2, 1%Z); (3, 100%Z)], Live) ]%Q.
+                  ([(3, 100%Z)], [(3, 100%Z)], Live) ]%Q.
 Proof.
   exists late_evs. eexists. eexists. split; [repeat constructor|]. split; [unfold late_evs; ss|].
   split; [vm_compute; reflexivity|]. split; vm_compute; reflexivity.
